@@ -275,10 +275,7 @@ public:
     getNamespaceForPrefix(const XalanDOMString&     thePrefix) const;
 
     const XalanDOMString*
-    getPrefixForNamespace(const XalanDOMString&     theURI) const
-    {
-        return findEntry(theURI, &value_type::getPrefixForNamespace);
-    }
+    getPrefixForNamespace(const XalanDOMString&     theURI) const;
 
     /**
      * See if the prefix has been mapped to a namespace in the current
